@@ -521,6 +521,12 @@ struct Dump {
 }
 
 fn run_antnode(ctx: &ServiceInstallCtx, cwd: &Path) -> Dump {
+    run_antnode_hook(ctx, cwd, "ANTNODE_VERIF_DUMP_OPTS")
+}
+
+/// `hook`: ANTNODE_VERIF_DUMP_OPTS (exit right after the options are resolved) or ANTNODE_VERIF_DUMP_PROTO
+/// (go on through key / log set-up and report the protocol identifiers the node would start with)
+fn run_antnode_hook(ctx: &ServiceInstallCtx, cwd: &Path, hook: &str) -> Dump {
     let bin = ANTNODE.get().expect("antnode path set");
     let mut cmd = Command::new(bin);
     cmd.args(&ctx.args).env_clear().current_dir(cwd);
@@ -530,10 +536,15 @@ fn run_antnode(ctx: &ServiceInstallCtx, cwd: &Path) -> Dump {
     // the service manager launches the node with the definition's environment
     if let Some(env) = &ctx.environment {
         for (k, v) in env {
+            // (the generated ANT_LOG values are no valid log filters: logging set-up, which only the
+            // PROTO hook reaches, would refuse them; the variable has no bearing on what is reported)
+            if hook == "ANTNODE_VERIF_DUMP_PROTO" && k == "ANT_LOG" {
+                continue;
+            }
             cmd.env(k, v);
         }
     }
-    cmd.env("ANTNODE_VERIF_DUMP_OPTS", "1");
+    cmd.env(hook, "1");
     match cmd.output() {
         Ok(o) => Dump {
             status_ok: o.status.success(),
@@ -1034,6 +1045,34 @@ async fn execute_async(c: &Case) -> Outcome {
     }
     if !port_added && p1.text != p2.text && failures_is_empty_hint(&p1.fields, &p2.fields) {
         fail!("upgrade_changes_interpretation/other".into(), "dumps differ outside the known fields".into());
+    }
+
+    // the protocol identifiers the node starts with all carry the requested network id (1 when none
+    // was requested): every 4th case, and every case that requests one
+    if network_id.is_some() || c.network_id % 4 == 0 {
+        let want = network_id.unwrap_or(1);
+        let d = run_antnode_hook(&install_ctx, tmp.path(), "ANTNODE_VERIF_DUMP_PROTO");
+        match d.stdout.lines().find_map(|l| l.strip_prefix("VERIF-PROTO ")) {
+            None => {
+                if std::env::var_os("VERIF_DEBUG").is_some() {
+                    eprintln!("no proto report: ok={} args={:?} stderr={} stdout={}", d.status_ok, to_strings(&install_ctx), vh_core::one_line(&d.stderr, 400), vh_core::one_line(&d.stdout, 300));
+                }
+                labels.push("inconclusive_precondition/antnode_gave_no_protocol_report".into())
+            }
+            Some(line) => {
+                labels.push("protocol_identifiers_checked".into());
+                for kv in line.split_whitespace() {
+                    let Some((k, v)) = kv.split_once('=') else { continue };
+                    let id = v.rsplit('/').next().unwrap_or("");
+                    if id != want.to_string() {
+                        fail!(
+                            format!("antnode_misreads/network_id_in_{k}"),
+                            format!("requested network id {want}; the node would start with {line}"),
+                        );
+                    }
+                }
+            }
+        }
     }
 
     // the intended configuration, field by field (install-time reading)
